@@ -563,12 +563,13 @@ func runC01(c *core.Ctx) {
 			}})
 		// the history element tested is the slot before the current index: idx-1, or the last slot exactly when idx-1 is negative
 		slotGood, slotN := true, 0
+		rv := an.RecvVarName(fn.Decl)
 		for _, p := range paths {
 			wrapped, wrapDecided := false, false
 			prevKey := ""
 			for _, l := range p.Lits {
 				switch {
-				case l.Key == "(a.idx - 1) == -1" || l.Key == "(a.idx - 1) < 0":
+				case l.Key == "("+rv+".idx - 1) == -1" || l.Key == "("+rv+".idx - 1) < 0":
 					wrapped, wrapDecided = l.Val, true
 				case l.Name == "prevok":
 					prevKey = l.Key
@@ -578,9 +579,9 @@ func runC01(c *core.Ctx) {
 				continue
 			}
 			slotN++
-			want := "a.history[(a.idx - 1)] == alert.OK"
+			want := rv + ".history[(" + rv + ".idx - 1)] == alert.OK"
 			if wrapped {
-				want = "a.history[(len(a.history) - 1)] == alert.OK"
+				want = rv + ".history[(len(" + rv + ".history) - 1)] == alert.OK"
 			}
 			if !wrapDecided || prevKey != want {
 				slotGood = false
